@@ -55,7 +55,20 @@ def pubWorldOf (j : Json) : Except String Pub.World := do
         | _, _ => none
       | _ => none
     | _ => []
+  -- oracle: source.ResolveReference(ref), listed where it is not the reference itself
+  let resolveTbl : List (Str × Str × Str) := match j.getObjVal? "refresolve" with
+    | .ok (Json.arr a) => a.toList.filterMap fun p => match p with
+      | Json.arr q => match q[0]?, q[1]?, q[2]? with
+        | some (Json.str b), some (Json.str r), some (Json.str t) => some (b.toList, r.toList, t.toList)
+        | _, _, _ => none
+      | _ => none
+    | _ => []
   pure { parse := rec_,
+         resolve := fun src ref => match src with
+           | none => ref
+           | some b => match resolveTbl.find? (fun e => e.1 = b.str ∧ e.2.1 = ref.str) with
+             | some (_, _, t) => (rec_ t).getD ref
+             | none => ref,
          parseTime := fun s => (timetable.find? (·.1 = s)).map (·.2),
          fetch := fun u =>
            match (Jtp.get env tol 20 ({ cap := 128 } : Jtp.Cache Doc) u).res with
@@ -66,20 +79,23 @@ def pubWorldOf (j : Json) : Except String Pub.World := do
 
 /-- Walks a dump and checks the provenance predicate: every accepted item that carries an id was
     built from JSON served by the id's host (the stamp after `@` in its name is a host index). -/
-partial def provenanceOk (hosts : List Str) (d : Json) : Bool :=
+partial def provenanceOk (hostOfId : String → Option String) (hosts : List Str) (d : Json) : Bool :=
   let self := match d.getObjVal? "id", d.getObjVal? "name" with
     | .ok (Json.str id), .ok (Json.str name) =>
       match (name.splitOn "@H").getLast? with
       | some idx => match idx.toNat? with
         | some i => match hosts[i]? with
-          | some h => (String.ofList ("https://".toList ++ h ++ ['/'])).isPrefixOf id
+          -- the host (authority: address and port) named in the id, as url.Parse reads it
+          | some h => match hostOfId id with
+            | some ih => ih == String.ofList h
+            | none => (String.ofList ("https://".toList ++ h ++ ['/'])).isPrefixOf id
           | none => false
         | none => true
       | none => true
     | _, _ => true
   let kids (k : String) : Bool := match d.getObjVal? k with
-    | .ok (Json.arr a) => a.all (provenanceOk hosts)
-    | .ok (Json.obj o) => provenanceOk hosts (Json.obj o)
+    | .ok (Json.arr a) => a.all (provenanceOk hostOfId hosts)
+    | .ok (Json.obj o) => provenanceOk hostOfId hosts (Json.obj o)
     | _ => true
   self && kids "creators" && kids "recipients" && kids "actor" && kids "target"
 
@@ -92,38 +108,59 @@ def pubWorldOp (j : Json) : Except String Res := do
   let impl := (j.getObjVal? "impl").toOption.getD Json.null
   let item := Pub.new w (.str start) none
   let mut fields : List (String × Json) := [("item", dumpItem item)]
-  let kidsOf (r : Option (List Pub.Item × Coll.Cont Pub.R Pub.E)) : List (String × Json) :=
+  -- further requests on the continuation (page and offset) the first harvest returned
+  let moreNs : List Nat := match j.getObjVal? "more" with
+    | .ok (Json.arr a) => a.toList.map fun q => (q.getNat?).toOption.getD 0
+    | _ => []
+  let rec rounds (construct : Pub.E → Pub.Item) (cont : Coll.Cont Pub.R Pub.E) : List Nat → List Json
+    | [] => []
+    | n :: rest => match cont with
+      | none => []
+      | some (p, off) =>
+        let r := Coll.harvest (Pub.loadPage w) p n off
+        Json.arr #[Json.arr (r.out.map (fun o => dumpItem (Pub.deliver construct o))).toArray, Json.bool r.cont.isSome] ::
+          rounds construct r.cont rest
+  let kidsOf (construct : Pub.E → Pub.Item) (r : Option (List Pub.Item × Coll.Cont Pub.R Pub.E)) : List (String × Json) :=
     match r with
-    | some (items, cont) => [("children", Json.arr (items.map dumpItem).toArray), ("more", Json.bool cont.isSome)]
+    | some (items, cont) => [("children", Json.arr (items.map dumpItem).toArray), ("more", Json.bool cont.isSome)] ++
+        (if moreNs.isEmpty then [] else [("rounds", Json.arr (rounds construct cont moreNs).toArray)])
     | none => []
   match item with
   | .actor a =>
-    fields := fields ++ kidsOf (Pub.actorChildren w a harvestN 0) ++ [("parents", Json.arr #[])]
+    fields := fields ++ kidsOf (Pub.outboxItem w a.id) (Pub.actorChildren w a harvestN 0) ++ [("parents", Json.arr #[])]
   | .post p =>
-    fields := fields ++ kidsOf (Pub.postChildren w p harvestN 0) ++
+    fields := fields ++ kidsOf (Pub.replyItem w p.id) (Pub.postChildren w p harvestN 0) ++
       [("parents", Json.arr ((Pub.parents w parentsN p).1.map dumpItem).toArray)]
   | .activity a =>
     match a.target with
     | .post p =>
-      fields := fields ++ kidsOf (Pub.postChildren w p harvestN 0) ++
+      fields := fields ++ kidsOf (Pub.replyItem w p.id) (Pub.postChildren w p harvestN 0) ++
         [("parents", Json.arr ((Pub.parents w parentsN p).1.map dumpItem).toArray)]
-    | .actor ac => fields := fields ++ kidsOf (Pub.actorChildren w ac harvestN 0) ++ [("parents", Json.arr #[])]
+    | .actor ac => fields := fields ++ kidsOf (Pub.outboxItem w ac.id) (Pub.actorChildren w ac harvestN 0) ++ [("parents", Json.arr #[])]
     | .failure => fields := fields ++ [("parents", Json.arr #[])]
   | .failure => fields := fields ++ [("parents", Json.arr #[])]
   | .collection c =>
     let r := Coll.harvest (Pub.loadPage w) c.page harvestN 0
-    fields := fields ++ [("children", Json.arr (r.out.map (fun o => dumpItem (Pub.deliver (Pub.genericItem w) o))).toArray),
-                         ("more", Json.bool r.cont.isSome)]
+    fields := fields ++ kidsOf (Pub.genericItem w) (some (r.out.map (Pub.deliver (Pub.genericItem w)), r.cont))
   -- predicates on the implementation's output
-  let all : List Json := [(impl.getObjVal? "item").toOption.getD Json.null] ++
-    (match impl.getObjVal? "children" with | .ok (Json.arr a) => a.toList | _ => []) ++
+  let roundKids (d : Json) : List Json := match d.getObjVal? "rounds" with
+    | .ok (Json.arr rs) => (rs.toList.map fun rd => match rd with
+        | Json.arr parts => (match parts[0]? with | some (Json.arr a) => a.toList | _ => [])
+        | _ => []).flatten
+    | _ => []
+  let kidsI : List Json := (match impl.getObjVal? "children" with | .ok (Json.arr a) => a.toList | _ => []) ++ roundKids impl
+  let all : List Json := [(impl.getObjVal? "item").toOption.getD Json.null] ++ kidsI ++
     (match impl.getObjVal? "parents" with | .ok (Json.arr a) => a.toList | _ => [])
-  let prov := all.all (provenanceOk hosts)
+  -- the authority url.Parse reads out of an identifier (oracle table of the real library)
+  let urltable := (j.getObjVal? "urltable").toOption.getD Json.null
+  let hostOfId (id : String) : Option String := match urltable.getObjVal? id with
+    | .ok r => match r.getObjVal? "host" with | .ok (Json.str h) => some h | _ => none
+    | _ => none
+  let prov := all.all (provenanceOk hostOfId hosts)
   -- C09: a listed activity was performed by the owner; a listed reply answers this very post
   let owner := (impl.getObjVal? "item").toOption.getD Json.null
   let ownerId := (owner.getObjVal? "id").toOption.getD Json.null
   let ownerKind := (owner.getObjVal? "k").toOption.getD Json.null
-  let kidsI : List Json := match impl.getObjVal? "children" with | .ok (Json.arr a) => a.toList | _ => []
   let genuine := kidsI.all fun k =>
     match k.getObjVal? "k" with
     | .ok (Json.str "activity") =>
@@ -134,7 +171,7 @@ def pubWorldOp (j : Json) : Except String Res := do
     | _ => true
   -- an author is shown only if author and post live on the same host
   let hostOf (id : Json) : String := match id with
-    | Json.str s => ((s.splitOn "/").take 3).foldl (· ++ "/" ++ ·) ""
+    | Json.str s => (hostOfId s).getD (((s.splitOn "/").take 3).foldl (· ++ "/" ++ ·) "")
     | _ => ""
   let rec authorsOk (d : Json) : Bool :=
     match d.getObjVal? "k" with
@@ -153,9 +190,12 @@ def pubWorldOp (j : Json) : Except String Res := do
   -- C10: the listing delivers the items of the pages, each once, in order (ids and kinds of the
   -- delivered entries against the harvest of the model over the same world)
   let shape (k : Json) : Json := Json.arr #[(k.getObjVal? "k").toOption.getD Json.null, (k.getObjVal? "id").toOption.getD Json.null]
-  let kidsM : List Json := match (Json.mkObj fields).getObjVal? "children" with | .ok (Json.arr a) => a.toList | _ => []
-  let pagesOk := kidsI.map shape == kidsM.map shape &&
-    (impl.getObjVal? "more").toOption == ((Json.mkObj fields).getObjVal? "more").toOption
+  let modelJ := Json.mkObj fields
+  let kidsM : List Json := (match modelJ.getObjVal? "children" with | .ok (Json.arr a) => a.toList | _ => []) ++ roundKids modelJ
+  let ends (d : Json) : List Json := (d.getObjVal? "more").toOption.toList ++ (match d.getObjVal? "rounds" with
+    | .ok (Json.arr rs) => rs.toList.map fun rd => match rd with | Json.arr parts => parts[1]?.getD Json.null | _ => Json.null
+    | _ => [])
+  let pagesOk := kidsI.map shape == kidsM.map shape && ends impl == ends modelJ
   pure { model := Json.mkObj fields,
          preds := [("served_by_the_host_in_its_id", prov), ("listed_entries_are_genuine", genuine),
                    ("authors_share_the_posts_host", authors), ("listing_is_the_pages_items_in_order", pagesOk)],
